@@ -41,7 +41,7 @@ def main():
             res['demo_patched_tail'] = [l for l in o.splitlines() if 'panicked' in l or 'assert' in l][:3]
             os.remove(demo_dst)
             # checks
-            cenv = dict(os.environ, VERIF_REPO=wt)
+            cenv = dict(os.environ, VERIF_REPO=wt, VERIF_EVIDENCE_DIR='/tmp/cf-ev')
             res['checks'] = {}
             for pid in props:
                 r = subprocess.run(['/verif/check', pid], env=cenv, stdout=subprocess.PIPE, stderr=subprocess.STDOUT, text=True)
